@@ -10,5 +10,6 @@ CONSTANTS
   OrphanMetaKept = FALSE
   CorruptIgnoresMeta = FALSE
   MayRelease = TRUE
+  DropBeforeDrain = FALSE
 INVARIANTS Probe
 CHECK_DEADLOCK FALSE
